@@ -297,6 +297,19 @@ def pixels_match(values, im, rows=None, cols=None):
     a = np.asarray(values)
     if a.shape != (len(rows), len(cols)):
         return f"shape {a.shape}, expected {(len(rows), len(cols))}"
+    if im.get("big"):  # size-family images (harness/bigimg.py): the sample pattern is a formula, compared vectorised
+        from . import bigimg
+
+        if im["kind"] != "processed":
+            return None if not a.any() else "non-zero sample in an all-zero C*8 image"
+        want = bigimg.expected_iu2(im["salt"], rows, cols)
+        if a.dtype.kind != "u" or a.dtype.itemsize != 2:
+            return f"dtype {a.dtype}, expected uint16"
+        bad = np.argwhere(a != want)
+        if len(bad):
+            i, j = bad[0]
+            return f"cell ({list(rows)[i]},{list(cols)[j]}) = {int(a[i, j])}, file holds {int(want[i, j])}"
+        return None
     if im["kind"] == "processed":
         for i, r in enumerate(rows):
             for j, c in enumerate(cols):
